@@ -27,9 +27,9 @@ var chkBP = pipeCheck{"R_bp_violation", "where_not (fun c => bp_ok regs (fattrs 
 func emitPipelineCases(c *Ctx, progs []*Prog, checks []pipeCheck, shard int, nontrivial func(*Prog, *Observed) bool) {
 	o := c.Out
 	o.WriteFile("Tab.v", commonTab(c)+
-		"From Avo Require Import Proofs.AllocCorrect.\n(* hypothesis of model_regalloc_preserves_semantics for the translated register file *)\nLemma regfile_ok_tab : regfile_ok regs = true.\nProof. vm_compute. reflexivity. Qed.\nPrint Assumptions regfile_ok_tab.\n")
+		"From Avo Require Import Proofs.AllocCorrect.\n(* hypothesis of model_regalloc_preserves_semantics for the translated register file *)\nLemma regfile_ok_tab : regfile_ok regs = true.\nProof. vm_compute. reflexivity. Qed.\nPrint Assumptions regfile_ok_tab.\nLemma regfile_kinds_ok_tab : regfile_kinds_ok regs = true.\nProof. vm_compute. reflexivity. Qed.\nPrint Assumptions regfile_kinds_ok_tab.\n")
 	o.Stage("Tab.v")
-	o.Oblig("Tab.pass_order_ok", "Tab.info_constants_ok", "Tab.regfile_ok_tab")
+	o.Oblig("Tab.pass_order_ok", "Tab.info_constants_ok", "Tab.regfile_ok_tab", "Tab.regfile_kinds_ok_tab")
 	stages := map[string]int{}
 	tagCount := map[string]int{}
 	sizes := map[string]int{}
